@@ -6,6 +6,7 @@ package keys
 import (
 	"crypto"
 	"crypto/ecdsa"
+	"crypto/elliptic"
 	"crypto/rand"
 	"crypto/rsa"
 	"crypto/x509"
@@ -37,8 +38,43 @@ func Count(kind string) int {
 	return 6
 }
 
+// LeadingZero is the first index of the generated EC keys whose public X (even offset) or Y
+// (odd offset) coordinate starts with a zero byte (about one key in 128 has such a
+// coordinate; encoders that strip or mis-pad leading zeros show only on them). For RSA kinds
+// these indices fall back to the static keys.
+const LeadingZero = 100
+
+func leadingZeroKey(kind string, j int) crypto.Signer {
+	curve := elliptic.P256()
+	if kind == "ec384" {
+		curve = elliptic.P384()
+	}
+	size := (curve.Params().BitSize + 7) / 8
+	for {
+		k, err := ecdsa.GenerateKey(curve, rand.Reader)
+		if err != nil {
+			panic(err)
+		}
+		x, y := k.X.FillBytes(make([]byte, size)), k.Y.FillBytes(make([]byte, size))
+		if (j%2 == 0 && x[0] == 0 && y[0] != 0) || (j%2 == 1 && y[0] == 0 && x[0] != 0) {
+			return k
+		}
+	}
+}
+
 // Get returns key #i of a kind ("ec256", "ec384", "rsa2048", "rsa3072").
 func Get(kind string, i int) crypto.Signer {
+	if i >= LeadingZero && !IsRSA(kind) {
+		name := fmt.Sprintf("%s-lz%d", kind, i)
+		mu.Lock()
+		defer mu.Unlock()
+		if k, ok := cache[name]; ok {
+			return k
+		}
+		k := leadingZeroKey(kind, i-LeadingZero)
+		cache[name] = k
+		return k
+	}
 	name := fmt.Sprintf("%s-%d", kind, i%Count(kind))
 	mu.Lock()
 	defer mu.Unlock()
